@@ -118,14 +118,14 @@ CHECKS = {
             'runtime re-evaluation monitor: every stored line re-run through its own definition on the final stores, under permuted schedules',
             'After each traced solve (natural order and seeded permutations of the attempt order) every stored line is re-evaluated with the real '
             'Field.value on accessors over a fresh InputStore of the final configuration and the final value store, both on the stored typed values and on the values as the returned solution carries them '
-            '(to_string/from_string), and must reproduce them exactly; online, every read must return the latest store and no key may change value; histories: solve - change inputs - solve again on the same store object, the same store handed to a solver of another tax year, and every form the return pulls in by reference requested up front (all their lines outstanding from the start).',
+            '(to_string/from_string), and must reproduce them exactly; online, every read must return the latest store and no key may change value; a line that asked for a line without a value and still answered is reported; histories: solve - change inputs - solve again on the same store object, the same store handed to a solver of another tax year, and every form the return pulls in by reference requested up front (all their lines outstanding from the start).',
             'Assumes line definitions are pure; schedule permutation is by replacing habutax.solver.sort_keys.',
             'DESIGN.md section 4, C03'),
     'C04': ('exploration',
             'offline closure checker over READ_LINE events + reference demand closure of generated programs',
-            'For each traced solve the demanded closure is rebuilt from the references the evaluated lines actually made; a successful solution and '
+            'For each traced solve the demand closure is rebuilt from the request outwards (required lines of the requested forms, what those lines read, the forms these reads bring in, ...); a successful solution and '
             'solver.forms must equal it exactly, a partial one must stay inside it; generated programs are also compared with the reference closure; at the command line the solution written for a request '
-            '(incl. requests that do not lead to Form 1040) must equal the API closure of the same request.',
+            '(incl. requests that do not lead to Form 1040) must equal the API closure of the same request; every shipped form is also requested alone and in pairs without Form 1040, copies are requested by name, heavily used inputs are typed at the prompt, and returns are reached in two calls on one Solver.',
             'Trusts READ_LINE events inside attempts to be all references made.',
             'DESIGN.md section 4, C04'),
     'C05': ('exploration',
@@ -141,7 +141,7 @@ CHECKS = {
             'ceiling; per-line evaluation bound, one prompt per input, and end-state conservation (no waiter left on a satisfied dependency) are checked. '
             'The real DependencyTracker is driven by random histories (length <= 40) and bounded-exhaustive ones (quick: length <= 5, thorough: length <= 7) '
             'of add_unmet/meet/partial and complete drains and compared step by step with a sequential model. Polls of has_met/has_unmet are counted as logical ticks (a main loop spinning without evaluating anything '
-            'hits the tick ceiling); command-line sessions in which the user goes away (EOF / Ctrl-C at question k) are bounded by calls of input() per question.',
+            'hits the tick ceiling); command-line sessions in which the user goes away (EOF / Ctrl-C at question k) are bounded by calls of input() per question and by repetitions of the same question. A line announced as met without a value, a line dropped after an unknown input definition, and prompt callbacks handing back rejected text are reported.',
             'Termination is decided as a logical step bound; watchdog expiry is inconclusive. Per-line bound = multiplicity x (1 + distinct waits) + 1.',
             'DESIGN.md section 4, C06'),
     'C12': ('exploration',
